@@ -256,7 +256,8 @@ Record mstate := {
 Inductive mlabel :=
 | MCheck (k : N)                              (* checkConnectPermission of a new connection k *)
 | MCommit (k : N) (cid : string) (wfail : bool) (* locked section of handleConn + CONNACK write (wfail: write fails) *)
-| MTeardown (k : N).                          (* readLoop of k ends: closeAndDelSession; removeClient *)
+| MTeardown (k : N)                           (* readLoop of k ends: closeAndDelSession; removeClient *)
+| MDelete (cid : string).                     (* deleteSession (storage watcher / admin API): unconditional removal *)
 
 (** CONNACK return codes (paho): 0 accepted, 3 server unavailable; [MNone] = nothing sent / not applicable *)
 Inductive mout := MAccepted | MRefused | MPassed | MNone.
@@ -318,6 +319,8 @@ Definition mstep (q : quirks) (s : mstate) (l : mlabel) : mstate * mout :=
           ({| mcap := mcap s; clients := remove_own k cid (clients s); checked := checked s;
               live := live_remove k (live s) |}, MNone)
       end
+  | MDelete cid =>
+      ({| mcap := mcap s; clients := aremove cid (clients s); checked := checked s; live := live s |}, MNone)
   end.
 
 Fixpoint mrun (q : quirks) (s : mstate) (ls : list mlabel) : mstate :=
